@@ -7,6 +7,7 @@ import Driver.Container
 import Driver.Session
 import Driver.Schema
 import Driver.Sched
+import Driver.Lexical
 
 /-!
 Line-protocol driver of the executable models: one request line ↦ one reply line.
@@ -22,6 +23,7 @@ structure DriverState where
   schema : Driver.Schema.St := {}
   sched : Driver.Sched.St := {}
   ordobj : Driver.OrderObj.St := {}
+  lex : Driver.Lexical.St := {}
 
 def step (st : DriverState) (line : String) : DriverState × String :=
   match (line.trimAscii.toString.splitOn " ").filter (· ≠ "") with
@@ -36,6 +38,7 @@ def step (st : DriverState) (line : String) : DriverState × String :=
     | ["sess", c] => let (s, o) := Driver.Session.handle st.sess c args; ({ st with sess := s }, o)
     | ["sch", c] => let (s, o) := Driver.Schema.handle st.schema c args; ({ st with schema := s }, o)
     | ["sched", c] => let (s, o) := Driver.Sched.handle st.sched c args; ({ st with sched := s }, o)
+    | ["lex", c] => let (s, o) := Driver.Lexical.handle st.lex c args; ({ st with lex := s }, o)
     | ["oo", c] => let (s, o) := Driver.OrderObj.handle st.ordobj c args; ({ st with ordobj := s }, o)
     | _ => (st, "bad-op")
 
